@@ -259,6 +259,8 @@ class Builder:
             if p[0] == "ref":
                 if a[0] == "Ref":
                     args.append(self.vars[a[1]])
+                elif a[0] == "PRef":
+                    args.append(env[a[1]])
                 else:
                     raise HarnessError("by-ref argument must be ('Ref', var)")
             else:
